@@ -526,6 +526,19 @@ def gen(rng, tier):
             yield op, [[p], to_sparse(a), d], cd + '/' + ca
         else:
             yield op, [[p], a, d], cd + '/' + ca
+    # ---- LARGE transforms (bls12_381 Fr): the radix-2 code changes shape with the size -- roots cache (n >= 2^7), table
+    # compaction (n >= 2^8), degree-aware path with a compacted first round (padded length >= 256 inside n >= 1024) -- and
+    # FFT-based multiplication reaches those sizes for ordinary operands (200 x 700 coefficients)
+    p = R
+    for n, lns in ((256, [33, 64, 65, 256]), (1024, [129, 200, 256, 257, 1024, 2049]), (2048, [300, 512])):
+        g = group_gen(p, n)
+        for h, ch in ((1, 'h=1'), (FIELDS[p][0], 'h=gen')):
+            for ln in (lns if scale > 1 else lns[:3] if n == 1024 else lns[:1]):
+                a = rpoly(rng, p, ln)
+                op = rng.choice(['d_eval_domain_ref', 'd_eval_domain_owned', 'roundtrip'])
+                yield op, [[p], a, [n, h % p, g]], 'large/n%d/%s/len%d' % (n, ch, ln)
+    for la, lb in ([(200, 700)] if scale == 1 else [(200, 700), (129, 129), (300, 1000), (64, 193)]):
+        yield 'd_mul', [[p], rpoly(rng, p, la), rpoly(rng, p, lb)], 'large/mul/%dx%d' % (la, lb)
     for _ in range(600 * scale):
         p = dom_fields(rng)
         d, n, cd = domain(rng, p)
